@@ -5,12 +5,13 @@ V = '/verif'
 CHECKS = {
  'C15': dict(
    text='Exhaustive TLC model checking of Timer.tla at limb base B (every counter/start/mode/pause/mirror state, every '
-        'history of ticks, skips within the horizon, restarts and config writes) decides the design; trace validation of '
+        'history of ticks, skips within the horizon, restarts and config writes) decides the design; the induction step of Skip(k) = Tick^k, '
+        'Skip(0) = identity and the tightness of the horizon are proved for all 32-bit states by Apalache/SMT (thorough tier for the step); trace validation of '
         'random 32-bit API histories recorded from real Timer objects binds the code to the same operators.',
    design_ref='5.15',
-   note='Trusted: TLC, CommunityModules Json/IOUtils, g++; Timer.tla as a reading of the property; full 32-bit width is '
-        'covered by boundary-clustered random traces, exhaustive only at the scaled limb base.',
-   technique='TLA+ spec + TLC exhaustive model checking + TLC trace validation of recorded executions'),
+   note='Trusted: TLC, Apalache/Z3, CommunityModules Json/IOUtils, g++; Timer.tla as a reading of the property; multi-call histories at full '
+        '32-bit width are covered by boundary-clustered random traces, exhaustive only at the scaled limb base.',
+   technique='TLA+ spec + TLC exhaustive model checking + Apalache (SMT) lemmas at full width + TLC trace validation of recorded executions'),
 }
 CHECKS['C02'] = dict(
    text='Exhaustive: TLC evaluates the decode clauses on the frozen TLA+ instruction table for all 65536 first words, and '
@@ -34,20 +35,22 @@ CHECKS['C01'] = dict(
    technique='TLA+ instruction-set specification + TLC trace validation of single-instruction executions of the real interpreter')
 CHECKS['C03'] = dict(
    text='The limb operators behind add/sub/compare/logic, the Z/M/E/N flags and the saturator are compared with integer arithmetic '
-        'for ALL operand pairs at a scaled limb width (TLC, exhaustive), and every encoding of these instruction families is '
+        'for ALL operand pairs at a scaled limb width (TLC, exhaustive) and, for add/subtract/compare, the flags and the saturator, '
+        'for all 2^40 x 2^40 operand pairs at full width (Apalache/SMT on the same operators); every encoding of these instruction families is '
         'executed by the real interpreter from boundary-clustered states with each execution validated in full by TLC at full width.',
    design_ref='5.3',
-   note='Trusted: TLC, CommunityModules, g++, the frozen TLA+ semantics. Exhaustive only at limb width 4; full-width coverage is '
-        'boundary-clustered sampling of every encoding.',
-   technique='TLA+ spec: exhaustive TLC theorems at scaled width + TLC trace validation of real instruction executions')
+   note='Trusted: TLC, Apalache/Z3, CommunityModules, g++, the frozen TLA+ semantics. Logic operations are exhaustive only at limb width 4; '
+        'the code is bound to the operators by boundary-clustered sampling of every encoding.',
+   technique='TLA+ spec: exhaustive TLC theorems at scaled width + Apalache (SMT) proof of the same theorems at full width + TLC trace validation of real instruction executions')
 CHECKS['C04'] = dict(
    text='Shifter (all values x all shift counts 0..42 x modes), exponent, multiplier (all factor pairs x sign selections x half-word '
-        'modes) and product-shift operators are compared exhaustively with integer arithmetic at scaled widths by TLC; every encoding '
+        'modes) and product-shift operators are compared exhaustively with integer arithmetic at scaled widths by TLC; the multiplier, product '
+        'shift and alignment additionally at full width for all factor pairs by Apalache/SMT; every encoding '
         'of the multiply/mac/mma/shift/exp families is executed by the real interpreter and validated in full by TLC at full width.',
    design_ref='5.4',
    note='Trusted: TLC, CommunityModules, g++, the frozen TLA+ semantics. One known finding (carry of a shift by exactly 40) is '
-        'pinned as a named deviation so that any other deviation is still reported.',
-   technique='TLA+ spec: exhaustive TLC theorems at scaled width + TLC trace validation of real instruction executions')
+        'pinned as a named deviation so that any other deviation is still reported. Shifter and exponent are exhaustive at scaled width only.',
+   technique='TLA+ spec: exhaustive TLC theorems at scaled width + Apalache (SMT) proof of the multiplier theorems at full width + TLC trace validation of real instruction executions')
 CHECKS['C11'] = dict(
    text='Memory.tla gives one operator per accessor (host program/data/A32/MMIO/raw views, guest fetch/load/store) over one byte '
         'array with the MIU address formation; TLC explores every history within a deviation budget on a scaled geometry against the '
